@@ -61,14 +61,27 @@ package server
 //@     before call (*commands.BatchCheckQuery).Execute args _, _, p : assert p != nil && p.StoreID == req.GetStoreId() && p.Checks == req.GetChecks() && p.Consistency == req.GetConsistency()
 
 //@ func (*Server).Check(s, ctx, req) (res, err)
-//@   property C26 C10 C04
+//@   property C26 C10 C04 C03
 //@   option nosafety
 //@   option stable req
 //@   monitor authzBeforeData
 //@     ghost authzOK = false
 //@     after call (*server.Server).checkAuthz args _, _, st, m returning e : authzOK = authzOK || (e == nil && st == req.GetStoreId() && m == "Check")
 //@     before call (*commands.*).Execute* | (*commands.*).ListUsers | listusers.*.ListUsers | (*listusers.*).ListUsers | storage.*.* | (*server.Server).resolveTypesystem | (*server.Server).v2Check | (*server.Server).shadowV2Check : assert authzOK
-//@   option monitor_props requestWiring=C10,C04
+//@   option monitor_props requestWiring=C10,C04 v2Gating=C03
+//@   monitor v2Gating
+//@     ghost v2Called = false
+//@     ghost v2Res *commands.CheckResult = nil
+//@     ghost v2Err error = nil
+//@     ghost classified = false
+//@     ghost terminal = false
+//@     before call (*server.Server).v2Check args _, _, r, _, _, _ : assert r == req
+//@     after call (*server.Server).v2Check returning r, e : v2Called = true ; v2Res = r ; v2Err = e
+//@     before call commands.IsV2CheckTerminalError args e : assert v2Called && e == v2Err
+//@     after call commands.IsV2CheckTerminalError args e returning b : classified = e == v2Err ; terminal = b
+//@     before call (*commands.CheckQuery).Execute : assert !v2Called || (v2Err != nil && classified && !terminal)
+//@   ensures @v2DecisionReturned v2Called && v2Err == nil && res != nil ==> err == nil && v2Res != nil && res.Allowed == v2Res.Allowed
+//@   ensures @v2TerminalErrorNoFallback v2Called && v2Err != nil && classified && terminal ==> res == nil
 //@   monitor requestWiring
 //@     before call (*commands.CheckQuery).Execute args _, _, p : assert p != nil && p.StoreID == req.GetStoreId() && p.TupleKey == req.GetTupleKey() && p.ContextualTuples == req.GetContextualTuples() && p.Context == req.GetContext() && p.Consistency == req.GetConsistency()
 
@@ -349,3 +362,15 @@ package server
 //@     before call server.buildCheckRequest args st, m, sub, rs, act, c : assert st == req.GetStoreId() && m == authorizationModelID && resolved && sub == rSub && rs == rRes && act == rAct && c == rCtx
 //@     after call server.buildCheckRequest returning r, e : lastReq = r ; lastErr = e
 //@     before call (*server.Server).Check args _, _, r : assert lastErr == nil && r == lastReq
+
+// the weighted-graph Check is evaluated for exactly this request (store, tuple, contextual tuples, context, consistency),
+// with the cache controller consulted only below HIGHER_CONSISTENCY
+//@ func (*Server).v2Check(s, ctx, req, cache, cacheController, modelGraphResolver) (res, err)
+//@   property C03 C10 C04
+//@   option nosafety
+//@   option stable req
+//@   option defer_neutral
+//@   monitor wiring
+//@     before call cachecontroller.CacheController.DetermineInvalidationTime args _, _, st : assert req.GetConsistency() != openfgav1.ConsistencyPreference_HIGHER_CONSISTENCY && st == req.GetStoreId()
+//@     before call (*modelgraph.AuthorizationModelGraphResolver).Resolve args _, _, st, m : assert st == req.GetStoreId() && m == req.GetAuthorizationModelId()
+//@     before call (*commands.CheckQueryV2).Execute args _, _, p : assert p != nil && p.StoreID == req.GetStoreId() && p.TupleKey == req.GetTupleKey() && p.ContextualTuples == req.GetContextualTuples() && p.Context == req.GetContext() && p.Consistency == req.GetConsistency()
